@@ -74,6 +74,45 @@ pub fn lanes() -> Vec<Lane> {
         thorough: 20_000,
     });
     v.push(Lane {
+        prop: "C16",
+        family: "PAGEDFAULT",
+        gen: gen::gen_paged_fault_base,
+        cfg: cfg_default,
+        check: oracle::check_c16_fault,
+        nontrivial: fault_nontrivial,
+        rule: "the PAGEDFAULT sweep (one paged search per index; EOF and reset at every response frame boundary and inside frames) under C16's fault-tolerant clauses: the entries handed out are a prefix of the result set, each exactly once and in order, the end is reported only after the last page, and no result returned by finish() carries a paging control; non-trivial = the fault fired while a call was waiting; distinct = distinct history-shape hash",
+        runner: None,
+        expand: Some(expand_paged_fault),
+        quick: 300,
+        thorough: 10_000,
+    });
+    v.push(Lane {
+        prop: "C02",
+        family: "PAGED",
+        gen: gen::gen_paged,
+        cfg: cfg_default,
+        check: oracle::check_c02_paged,
+        nontrivial: paged_nontrivial,
+        rule: "PAGED scenarios under the request model: every SearchRequest of a paged search (first and follow-up pages) carries the caller's base, scope, filter, attributes, search options and other controls; non-trivial = at least two pages were fetched; distinct = distinct history-shape hash",
+        runner: None,
+        expand: None,
+        quick: 40_000,
+        thorough: 1_000_000,
+    });
+    v.push(Lane {
+        prop: "C04",
+        family: "REALIO",
+        gen: gen::gen_realio,
+        cfg: cfg_default,
+        check: oracle::check_c04_real,
+        nontrivial: estab_nontrivial,
+        rule: "seeded cases on the transports the simulator replaces by its in-memory pipe: kernel TCP (dialled or pre-opened), Unix sockets (ldapi URL or pre-opened pair), TLS (ldaps) and StartTLS through native-tls/OpenSSL, asynchronous and synchronous API; 0-3 answered binds, then one ending: unbind with a surviving clone, all handles dropped, the peer closes / resets / sends an undecodable frame while 1-4 operations wait, the peer closes while nothing waits; clauses: every waiting operation returns an error, drive() returns, an operation started afterwards fails, and after unbind resp. the last drop the scripted peer sees the end of the client's stream - each within a 5 s real-time guard that only expires on a violation; non-trivial = not skipped for environment reasons; distinct = distinct (transport, API, ending, warm-up, observation) tuples",
+        runner: Some(crate::realio::run),
+        expand: None,
+        quick: 1_500,
+        thorough: 40_000,
+    });
+    v.push(Lane {
         prop: "C18",
         family: "ESTABURL",
         gen: gen::gen_estab_url,
@@ -493,6 +532,7 @@ pub fn shape_hash(rr: &RunResult) -> u64 {
                 put(16);
                 put(*client as u64);
             }
+            EvKind::Note(n) if n.starts_with("realio ") => put(family_id(n)),
             EvKind::Note(n) if n.starts_with("estab ") => {
                 // establishment lanes: the observation minus times is the shape
                 if let Ok(o) = serde_json::from_str::<crate::estab::EstabObs>(&n[6..]) {
@@ -625,7 +665,7 @@ fn expand_fault(lane: &Lane, verif_seed: u64, index: u64) -> Vec<Case> {
     for j in 0..n_emissions {
         for (class, bytes) in undecodable.iter() {
             let mut sc = base.clone();
-            sc.plan.hostile = Some(Hostile { before_emission: j, class: class.to_string(), bytes: bytes.clone(), must_end: true, nest: None, outer_inflated: false });
+            sc.plan.hostile = Some(Hostile { before_emission: j, class: class.to_string(), bytes: bytes.clone(), must_end: true, nest: None, outer_inflated: false, gap_after_ms: 0 });
             let k = out.len() as u64;
             out.push(Case { sc, trace: Some(rref.trace.clone()), sched_seed: mix(&[s.sched, k, 6]), cfg: RunCfg { diverge_seed: Some(mix(&[s.sched, k, 5])), ..cfg0() }, label: format!("undecodable({class})-before-emission#{j}"), runner: None });
         }
